@@ -4,14 +4,14 @@ import (
 	"fmt"
 	"go/constant"
 	"go/token"
+	"go/types"
 	"os"
 	"path/filepath"
 	"regexp"
-	"strconv"
-	"unicode"
-	"go/types"
 	"sort"
+	"strconv"
 	"strings"
+	"unicode"
 
 	"golang.org/x/tools/go/ssa"
 
@@ -128,6 +128,27 @@ func analyseParserLoop(c *core.Ctx, want map[string]bool) {
 		return nil, nil, false
 	}
 	x.Hooks.Atom = func(x *absint.Exec, s *absint.State, cond absint.Value) *absint.Atom {
+		if sym, isSym := cond.(absint.Sym); isSym && strings.HasPrefix(sym.Name, "@") {
+			// a lookup table indexed by the first byte of the line: a constant [256]bool whose true entries are
+			// the indentation characters is the same test as the comparison chain
+			loc := x.LocOf[strings.TrimPrefix(sym.Name, "@")]
+			if i := strings.IndexByte(loc, '['); i > 0 && strings.HasPrefix(loc, "G:") && loc[i:] == "["+absint.NewTerm("index", absint.Sym{Name: strings.TrimPrefix(s.Data["line"], "§")}, absint.Const{V: constant.MakeInt64(0)}).Key()+"]" {
+				if tab := x.ConstArray(loc[:i]); tab != nil {
+					names := map[int64]string{32: "space", 9: "tab", 45: "dash"}
+					var tr []string
+					for k, v := range tab {
+						n, known := names[k]
+						if !known || v.Key() != "c:true" {
+							return nil
+						}
+						tr = append(tr, n)
+					}
+					sort.Strings(tr)
+					return &absint.Atom{Name: "first(" + s.Data["line"] + ")", Domain: firstDomain, True: tr}
+				}
+			}
+			return nil
+		}
 		t, ok := cond.(*absint.Term)
 		if !ok || (t.Op != "==" && t.Op != "!=") || len(t.Args) < 2 {
 			return nil
@@ -556,6 +577,10 @@ func analyseParserLoop(c *core.Ctx, want map[string]bool) {
 			by["C12-R4"]++
 			c.Violate("C12-R4", fname, f.disc, f.pos, f.msg+" (what is reported for a day then depends on the lines that follow it)", nil)
 		}
+		if f.rule == "C04-R1" && f.disc == "classification" && want["C09-R7"] {
+			by["C09-R7"]++
+			c.Violate("C09-R7", fname, f.disc, f.pos, f.msg+" (a malformed line must produce its error event every time it occurs)", nil)
+		}
 		if f.rule == "C04-R1" && f.disc == "record-kept" && want["C09-R5"] {
 			by["C09-R5"]++
 			c.Violate("C09-R5", fname, f.disc, f.pos, f.msg+" (lint then reports only the first malformed line of the record)", nil)
@@ -571,6 +596,7 @@ func analyseParserLoop(c *core.Ctx, want map[string]bool) {
 		"C04-R3": "trim sets and the entry splitter agree with the documented grammar: separator, quote and both indentation characters stripped from names and quantities, the list dash from names only, the splitter searches exactly the indentation characters",
 		"C08-R1": "every invocation of the callback passes (non-nil record, nil) or (nil, non-nil error)",
 		"C12-R4": "every heading yields exactly one delivered record whatever follows it (line classification table)",
+		"C09-R7": "every line class the table calls malformed (no separator, unparsable value) produces exactly its error event, on every occurrence",
 		"C09-R5": "after an error callback that does not stop, the open record is kept: later malformed lines of the same record are still reported",
 		"C09-R2": "the positioned errors quote the raw line returned by Scanner.Text()",
 		"C10-R1": "every return after Scan()=false consults Scanner.Err(); a non-nil scanner error is returned and nothing is delivered after it",
